@@ -1301,3 +1301,271 @@ impl<'t, 'c> Gen<'t, 'c> {
         self.prog
     }
 }
+
+// ------------------------------------------------------------------------------------------------
+// Arrays, records and fixed-length strings (C04)
+// ------------------------------------------------------------------------------------------------
+
+#[derive(Clone)]
+struct ArrInfo {
+    var: usize,
+    name: String,
+    bounds: Vec<(i32, i32)>,
+    sty: STy,
+}
+
+impl<'t, 'c> Gen<'t, 'c> {
+    fn leaf_paths(&self, sty: &STy) -> Vec<(Vec<String>, STy)> {
+        match sty {
+            STy::Rec(i) => {
+                let mut out = vec![];
+                for (f, t) in &self.prog.types[*i].fields {
+                    for (mut p, lt) in self.leaf_paths(t) {
+                        p.insert(0, f.clone());
+                        out.push((p, lt));
+                    }
+                }
+                out
+            }
+            other => vec![(vec![], other.clone())],
+        }
+    }
+
+    fn value_for(&mut self, sty: &STy) -> Expr {
+        match sty {
+            STy::B(Ty::Str) | STy::Fixed(_) => {
+                if self.t.chance(1, 3) {
+                    Expr::Load(self.scalar(Ty::Str, false))
+                } else {
+                    s_lit(*self.t.pick(&["ab", "x", "", "hello world", "QBASIC", "12345678", "a b c"]))
+                }
+            }
+            STy::B(t) => {
+                // a value of any numeric type: converted to the element type on store
+                match self.t.choose(5) {
+                    0 | 1 => lit_i(*self.t.pick(&[7i64, 1, -3, 42, 100, 0, 32767, -32768])),
+                    2 => Expr::Lit(Lit::Frac { num: *self.t.pick(&[5i64, 9, 13, 7, 3]), shift: 2, double: false }),
+                    3 => Expr::Lit(Lit::Whole(*self.t.pick(&[40000i64, 100000, 65536]))),
+                    _ => {
+                        let _ = t;
+                        let ty = self.num_ty();
+                        Expr::Load(self.scalar(ty, false))
+                    }
+                }
+            }
+            STy::Rec(_) => unreachable!(),
+        }
+    }
+
+    fn index_expr(&mut self, v: i32) -> Expr {
+        match self.t.choose(6) {
+            0 | 1 | 2 => lit_i(v as i64),
+            3 => {
+                // a fractional index rounding to v (never a tie)
+                let q = *self.t.pick(&[1i64, -1]);
+                let num = v as i64 * 4 + q;
+                if num < 0 {
+                    Expr::Un(UnOp::Neg, Box::new(Expr::Lit(Lit::Frac { num: -num, shift: 2, double: false })))
+                } else {
+                    Expr::Lit(Lit::Frac { num, shift: 2, double: false })
+                }
+            }
+            4 => {
+                // v = (v - 1) + 1
+                b(BinOp::Add, Expr::Paren(Box::new(lit_i(v as i64 - 1))), lit_i(1))
+            }
+            _ => Expr::Paren(Box::new(lit_i(v as i64))),
+        }
+    }
+
+    pub fn array_program(mut self) -> Program {
+        // record types
+        let ntypes = self.t.choose(3);
+        for k in 0..ntypes {
+            let nf = 1 + self.t.choose(3);
+            let mut fields = vec![];
+            for j in 0..nf {
+                let sty = match self.t.choose(7) {
+                    0 => STy::B(Ty::Int),
+                    1 => STy::B(Ty::Long),
+                    2 => STy::B(Ty::Single),
+                    3 => STy::B(Ty::Double),
+                    4 | 5 => STy::Fixed(1 + self.t.choose(6) as u16),
+                    _ => {
+                        if k > 0 {
+                            STy::Rec(k - 1)
+                        } else {
+                            STy::Fixed(3)
+                        }
+                    }
+                };
+                fields.push((format!("F{}", (b'A' + j as u8) as char), sty));
+            }
+            self.prog.types.push(RecType { name: format!("RecT{}", k + 1), fields });
+        }
+        let mut main: Vec<Stmt> = vec![];
+        let mut arrays: Vec<ArrInfo> = vec![];
+        let narr = 1 + self.t.choose(3);
+        for k in 0..narr {
+            let ndim = 1 + self.t.choose(3);
+            let mut bounds = vec![];
+            let explicit = self.t.chance(2, 3);
+            let mut total = 1;
+            for _ in 0..ndim {
+                let lo = if explicit { self.t.range(-3, 3) as i32 } else { 0 };
+                let extent = 1 + self.t.choose(if ndim == 3 { 3 } else { 4 }) as i32;
+                total *= extent;
+                bounds.push((lo, lo + extent - 1));
+            }
+            let _ = total;
+            let (sty, name, extended) = match self.t.choose(8) {
+                0 => (STy::B(Ty::Int), format!("AR{}%", k + 1), false),
+                1 => (STy::B(Ty::Long), format!("AR{}&", k + 1), false),
+                2 => (STy::B(Ty::Single), format!("AR{}", k + 1), false),
+                3 => (STy::B(Ty::Double), format!("AR{}#", k + 1), false),
+                4 => (STy::B(Ty::Str), format!("AR{}$", k + 1), false),
+                5 => (STy::Fixed(1 + self.t.choose(6) as u16), format!("AR{}", k + 1), true),
+                6 => (STy::B(*self.t.pick(&[Ty::Int, Ty::Long, Ty::Double])), format!("AR{}", k + 1), true),
+                _ => {
+                    if ntypes > 0 {
+                        (STy::Rec(self.t.choose(ntypes)), format!("AR{}", k + 1), true)
+                    } else {
+                        (STy::B(Ty::Int), format!("AR{}%", k + 1), false)
+                    }
+                }
+            };
+            let var = self.add_var(name.clone(), sty.clone(), bounds.clone(), true);
+            main.push(Stmt::Dim(Dim { var, name: name.clone(), bounds: bounds.clone(), explicit_lower: explicit, sty: sty.clone(), extended, shared: false }));
+            arrays.push(ArrInfo { var, name, bounds, sty });
+        }
+        // scalars of record / fixed-string type
+        let mut scalars: Vec<ArrInfo> = vec![];
+        if self.t.chance(1, 2) {
+            let n = 1 + self.t.choose(6) as u16;
+            let var = self.add_var("FS1".into(), STy::Fixed(n), vec![], true);
+            main.push(Stmt::Dim(Dim { var, name: "FS1".into(), bounds: vec![], explicit_lower: false, sty: STy::Fixed(n), extended: true, shared: false }));
+            scalars.push(ArrInfo { var, name: "FS1".into(), bounds: vec![], sty: STy::Fixed(n) });
+        }
+        if ntypes > 0 && self.t.chance(1, 2) {
+            let ti = self.t.choose(ntypes);
+            let var = self.add_var("RC1".into(), STy::Rec(ti), vec![], true);
+            main.push(Stmt::Dim(Dim { var, name: "RC1".into(), bounds: vec![], explicit_lower: false, sty: STy::Rec(ti), extended: true, shared: false }));
+            scalars.push(ArrInfo { var, name: "RC1".into(), bounds: vec![], sty: STy::Rec(ti) });
+        }
+        // by-reference setters
+        let set_types = [Ty::Int, Ty::Long, Ty::Single, Ty::Double, Ty::Str];
+        for (k, t) in set_types.iter().enumerate() {
+            let pn = format!("X{}", t.suffix());
+            let vn = format!("V{}", t.suffix());
+            let params = vec![Param { name: pn.clone(), var: 0, sty: STy::B(*t), array: false, extended: false }, Param { name: vn.clone(), var: 1, sty: STy::B(*t), array: false, extended: false }];
+            let vars = vec![VarInfo { name: pn.clone(), sty: STy::B(*t), bounds: vec![], shared: false }, VarInfo { name: vn.clone(), sty: STy::B(*t), bounds: vec![], shared: false }];
+            let body = vec![Stmt::Assign(sv(&pn, 0, *t), Expr::Load(sv(&vn, 1, *t)))];
+            self.prog.procs.push(Proc { name: format!("Set{}", k + 1), ret: None, params, is_static: false, body, vars, result_var: None });
+        }
+        // operations
+        let all: Vec<ArrInfo> = arrays.iter().cloned().chain(scalars.iter().cloned()).collect();
+        let nops = 2 + self.t.choose(10);
+        for _ in 0..nops {
+            let target = all[self.t.choose(all.len())].clone();
+            let leaves = self.leaf_paths(&target.sty);
+            let (fields, lsty) = leaves[self.t.choose(leaves.len())].clone();
+            let idx_vals: Vec<i32> = target.bounds.iter().map(|(lo, hi)| {
+                // bias towards the faces of the index box
+                match self.t.choose(4) {
+                    0 => *lo,
+                    1 => *hi,
+                    _ => self.t.range(*lo as i64, *hi as i64) as i32,
+                }
+            }).collect();
+            let index: Vec<Expr> = idx_vals.iter().map(|v| self.index_expr(*v)).collect();
+            let lv = LValue { name: target.name.clone(), var: target.var, index, fields, sty: lsty.clone() };
+            match self.t.choose(6) {
+                0 | 1 | 2 => {
+                    let e = self.value_for(&lsty);
+                    main.push(Stmt::Assign(lv, e));
+                }
+                3 => {
+                    // read back immediately
+                    main.push(pr(vec![s_lit("<"), Expr::Load(lv), s_lit(">")]));
+                }
+                4 => {
+                    // store through a by-reference parameter
+                    let ety = lsty.ety().unwrap();
+                    let p = set_types.iter().position(|t| *t == ety).unwrap();
+                    let v = self.value_for(&STy::B(ety));
+                    let v = match v {
+                        Expr::Load(_) => Expr::Paren(Box::new(v)),
+                        o => o,
+                    };
+                    // the value is bound by value with conversion to the parameter type
+                    let v = if ety == Ty::Str || matches!(v, Expr::Lit(Lit::Str(_))) { v } else { v };
+                    main.push(Stmt::CallSub(p, vec![Expr::Load(lv), v]));
+                }
+                _ => {
+                    if !target.bounds.is_empty() {
+                        let arr_ref = LValue { name: target.name.clone(), var: target.var, index: vec![], fields: vec![], sty: target.sty.clone() };
+                        let d = 1 + self.t.choose(target.bounds.len());
+                        let mut items = vec![Expr::BuiltIn { name: "LBOUND".into(), args: vec![Expr::Load(arr_ref.clone()), lit_i(d as i64)], ty: Ty::Int }, Expr::BuiltIn { name: "UBOUND".into(), args: vec![Expr::Load(arr_ref.clone()), lit_i(d as i64)], ty: Ty::Int }];
+                        if self.t.chance(1, 2) {
+                            items.push(Expr::BuiltIn { name: "LBOUND".into(), args: vec![Expr::Load(arr_ref.clone())], ty: Ty::Int });
+                            items.push(Expr::BuiltIn { name: "UBOUND".into(), args: vec![Expr::Load(arr_ref)], ty: Ty::Int });
+                        }
+                        main.push(pr(items));
+                    } else {
+                        main.push(pr(vec![s_lit("<"), Expr::Load(lv), s_lit(">")]));
+                    }
+                }
+            }
+        }
+        // full dump of every element and field (unrolled)
+        for a in &all {
+            let leaves = self.leaf_paths(&a.sty);
+            let mut tuples: Vec<Vec<i32>> = vec![vec![]];
+            for (lo, hi) in &a.bounds {
+                let mut next = vec![];
+                for t in &tuples {
+                    for v in *lo..=*hi {
+                        let mut x = t.clone();
+                        x.push(v);
+                        next.push(x);
+                    }
+                }
+                tuples = next;
+            }
+            for tup in tuples {
+                let mut items = vec![];
+                for (fields, lsty) in &leaves {
+                    let lv = LValue { name: a.name.clone(), var: a.var, index: tup.iter().map(|v| lit_i(*v as i64)).collect(), fields: fields.clone(), sty: lsty.clone() };
+                    if lsty.ety() == Some(Ty::Str) {
+                        items.push(s_lit("["));
+                        items.push(Expr::Load(lv));
+                        items.push(s_lit("]"));
+                    } else {
+                        items.push(Expr::Load(lv));
+                    }
+                }
+                main.push(pr(items));
+            }
+        }
+        // final out-of-range access on a chosen face
+        if !arrays.is_empty() && self.t.chance(1, 2) {
+            let a = arrays[self.t.choose(arrays.len())].clone();
+            let d = self.t.choose(a.bounds.len());
+            let below = self.t.chance(1, 2);
+            let leaves = self.leaf_paths(&a.sty);
+            let (fields, lsty) = leaves[0].clone();
+            let index: Vec<Expr> = a.bounds.iter().enumerate().map(|(k, (lo, hi))| if k == d { lit_i(if below { *lo as i64 - 1 } else { *hi as i64 + 1 }) } else { lit_i(*lo as i64) }).collect();
+            let lv = LValue { name: a.name.clone(), var: a.var, index, fields, sty: lsty.clone() };
+            if self.t.chance(1, 2) {
+                // a value that certainly fits: the statement must fail for the subscript alone
+                let e = if lsty.ety() == Some(Ty::Str) { s_lit("x") } else { lit_i(1) };
+                main.push(Stmt::Assign(lv, e));
+            } else {
+                main.push(pr(vec![s_lit("<"), Expr::Load(lv), s_lit(">")]));
+            }
+            main.push(pr(vec![s_lit("not reached")]));
+        }
+        self.prog.main = main;
+        self.prog
+    }
+}
